@@ -24,10 +24,35 @@ Section C02.
 
   (* for every rule of the generated table, every matching window, every frame state (locals, operand
      stack, globals, heap, output, backtrace): executing the window instruction by instruction and
-     executing the fused instruction give the same step result -- same stack, heap, globals, output,
-     same call request, same failure -- under the rule's guard (true for most rules; numeric slot for
-     LOCALINCDEC; int32 constant for FASTGETINT/FASTSETINT; 16-bit call operands for FASTCALLATTR;
-     sign conditions for the two INCDEC rules) *)
+     executing the fused instruction give the same STEP RESULT -- same locals, operand stack, heap, globals,
+     output, same call request, same failure message and state -- under the rule's guard.
+     What "same" means: sres_equiv a b is  a = b  up to  SJump 0 ~ SNext  (only used by JUMP 0 -> PASS).
+     It is strict otherwise: failure messages, states, even the diagnostic strings of SStuck are compared
+     (the coarser relation that identifies all SStuck is sres_same, used by c02_steps_from_source only).
+     But a step result carries NO source position: "same failure" does not compare the error POSITION.  The
+     fused instruction carries the position of the LAST window instruction, so when an EARLIER instruction
+     of the window fails (GETATTR in LOCALGET; GETATTR; CALL) the unoptimized and the optimized run report
+     different positions although this theorem holds -- that is property C20 (c20_fuse_same_report,
+     c20_fuse_early_failure_refuted), not this one.
+     The guard (Proofs/C02_rules.v [guard]; constantly true for 8 of the 16 rules) and what happens where it is FALSE
+     although the optimizer fuses all the same (the optimizer never looks at run-time values):
+     - LOCALINCDEC: the slot holds a number.  On a string / bool / nil slot the two sides DIFFER (the window
+       re-tags the result through LOCALSET, the fused instruction does not: Witness/NV_C07C02.v
+       remark_c02_guard_false_differs); typed source never applies ++ / += to such a local, but that is not
+       proved here.
+     - FASTSET, FASTSETATTR, FASTSETINT: the operand stack is not empty.  On an empty stack both sides are
+       SStuck with different diagnostic strings (nothing else differs); compiled code never underflows (C07).
+     - FASTGETINT, FASTSETINT: the PUSH constant fits int32 (PUSH gives an untyped constant, the fused
+       instruction an int32 key); outside int32 the keys differ.
+     - FASTCALLATTR: both CALL operands are < 2^16 (they are packed into the halves of one operand); a call
+       with more than 65535 arguments or results would be mis-encoded.
+     - PUSH n; ADD / PUSH n; SUB -> INCDEC: sign conditions on n that keep the proof free of floating-point
+       reasoning.  The guard is only SUFFICIENT here: for a negative n > -2^31 on a float64 or untyped operand
+       the two sides are still equal (Proofs/C02_rules.v c02_rule_sound_ieee, which relies on Coq's IEEE-754
+       specification of primitive floats and is therefore not restated in this file; instance:
+       nv_c02_guard_incdec_false).  For a constant n <= -2^31 nothing is proved.  PUSH 0; SUB (where
+       -0.0 - 0 = -0.0 but incDec(0) = +0.0) is not fused at all: the generated rule has the side condition
+       n <> 0, so rule_matches is false there (remark_c02_guard_false_differs). *)
   Theorem c02_rules : forall r, In r peephole_rules ->
     forall w, List.length w = rule_len r -> rule_matches r w = true ->
     forall codes pc pc' slots ops s, guard r w slots ops = true ->
@@ -49,6 +74,29 @@ Print Assumptions c02_guards_satisfiable.
 Theorem c02_optimizer_shape : forall code, opt_rel peephole_rules code (do_optimize peephole_rules code).
 Proof. exact do_optimize_rel'. Qed.
 Print Assumptions c02_optimizer_shape.
+
+(* the LINK between the two: every window the optimizer replaces (constructor opt_fuse of opt_rel:
+   first_match peephole_rules code = Some r on the remaining suffix code; the window is the first rule_len r
+   instructions of it, the replacement fused r code) satisfies every premise of c02_rules except possibly
+   `guard` -- the rule is in the table, the window has exactly the rule's length, the rule matches the window
+   alone, and fusing the window alone gives the instruction the optimizer emits (no rule of the generated
+   table looks beyond its own window: rule_closed, evaluated on the regenerated table) -- so that, under the
+   guard, every fusion step of the optimizer is an instance of c02_rules.
+   NOT proved anywhere: the lifting from steps to whole RUNS of optimized vs unoptimized code.  For arbitrary
+   code it is false (do_optimize shortens the list without touching relative jump operands; the compiler
+   optimizes each block before it measures jump distances: Witness/NV_C07C02.v remark_c02_not_whole_program);
+   whole runs are compared by the run-level correspondence only. *)
+Theorem c02_shape_meets_rules : forall grow ext_get ext_set ext_len ext_getattr ext_setattr,
+  (forall s r k k', vnum k = vnum k' -> vval k = vval k' -> ext_get s r k = ext_get s r k') ->
+  (forall s r k k' v, vnum k = vnum k' -> vval k = vval k' -> ext_set s r k v = ext_set s r k' v) ->
+  forall code r, first_match peephole_rules code = Some r ->
+  let w := firstn (rule_len r) code in
+  In r peephole_rules /\ List.length w = rule_len r /\ rule_matches r w = true /\ fused r w = fused r code /\
+  forall codes pc pc' slots ops s, guard r w slots ops = true ->
+    sres_equiv (run_window grow ext_get ext_set ext_len ext_getattr ext_setattr codes pc w slots ops s)
+               (step1 grow ext_get ext_set ext_len ext_getattr ext_setattr codes pc' (fused r code) slots ops s).
+Proof. exact shape_meets_rules. Qed.
+Print Assumptions c02_shape_meets_rules.
 
 (* the dispatch loop the rule theorem talks about IS what /repo/do.go says, for the opcodes go2v can
    translate (Gen/Steps_gen.v is regenerated from the `exec` switch of do.go on every run): the hand
